@@ -43,6 +43,11 @@ def warmup():
 # and a zero gradient -- both are finite velocity gradients and hit the guards of the
 # non-dimensionalisation (found missing by seeded change C01/rigid-rotation-NaN)
 LETTERS = H.STEP_LETTERS + [("rigid", 0.5), ("zero", 0.5), ("tospin", 0.5)]
+GETREG = {
+    "disl_yield": lambda t, x: 4 if int(t * 10) % 2 == 0 else 6,
+    "disl_then_null": lambda t, x: 4 if t < 0.3 else 7,
+    "null_then_disl": lambda t, x: 0 if t < 0.25 else 4,
+}
 COMPOSITIONS = [(4,), (1, 3), (2, 2), (3, 1), (1, 1, 2), (1, 2, 1), (2, 1, 1)]
 CHAIN_K = [1, 2, 5, 10, 25, 50, 100]
 
@@ -51,6 +56,10 @@ def gen_cases(tier, seed):
     keys = H.root_keys(tier, list(H.REGIMES), dev=1 if tier == "quick" else 2)
     for k in keys:
         k["depth"] = 2 if tier == "quick" else 3
+    # regime supplied by a callable of (t, x): switching between accepted regimes mid-update
+    for fab in alph.FABRICS:
+        for gr in GETREG:
+            keys.append(dict(part="hist", fab=fab, reg="disl", tex="random", vol="geometric", ng=5, prm="default", getreg=gr, depth=2 if tier == "quick" else 3))
     for fab in alph.FABRICS:
         for reg in ("disl", "yield", "diff", "minvisc"):
             for fl in ("ss_xz", "gen", "time", "pos"):
@@ -128,7 +137,8 @@ def run_case(key):
         t1 = st.t + lt[1]
         res["n"] += 1
         try:
-            F = H.update(child.m, prm, child.F, fl, st.t, t1)
+            kw = {"get_regime": GETREG[key["getreg"]]} if key.get("getreg") else {}
+            F = H.update(child.m, prm, child.F, fl, st.t, t1, **kw)
         except Exception as e:
             res["notes"]["rejected_updates"] = res["notes"].get("rejected_updates", 0) + 1
             res["outcomes"].append("exc:" + type(e).__name__)
